@@ -4,7 +4,9 @@
 ID=$1; shift
 cd /verif
 [ -z "$(git -C /repo status --porcelain)" ] || { echo "/repo not clean"; exit 2; }
-git -C /repo apply --3way /verif/seeded/$ID/patch.diff 2>/dev/null || git -C /repo apply /verif/seeded/$ID/patch.diff || { echo "$ID: patch does not apply on HEAD"; git -C /repo checkout -- .; exit 2; }
+# patch_head.diff = the same change ported to the current HEAD (where a later fix touched the same lines)
+P=/verif/seeded/$ID/patch.diff; [ -f /verif/seeded/$ID/patch_head.diff ] && P=/verif/seeded/$ID/patch_head.diff
+git -C /repo apply $P 2>/dev/null || git -C /repo apply --3way $P 2>/dev/null || { echo "$ID: patch does not apply on HEAD"; git -C /repo reset -q --hard HEAD; exit 2; }
 for C in "$@"; do
   S=$(date +%s)
   OUT=$(PVF_NO_EVIDENCE=1 ./bin/check $C quick 2>&1); RC=$?
